@@ -101,7 +101,7 @@ CHECKS = {
          "DESIGN.md §C25"),
 }
 # entries present in CHECKS but not yet reviewed/claimed
-PENDING = {"C03", "C06"}
+PENDING = set()
 for _k in PENDING:
     CHECKS.pop(_k, None)
 NOT_BUILT = "check not built yet (work in progress; see DESIGN.md for the planned model-checking design)"
